@@ -12,6 +12,7 @@ from .. import regexfa
 from ..constfold import table, NpArray
 from ..model import AnalysisError
 from .common import ob, need, call_name, resolve_ite_free, positive_facts, facts
+from . import common
 from .. import symeval
 
 PROP = "C10"
@@ -558,6 +559,10 @@ def rule_degreeparse(ctx):
     sharp = any(x.op == "call" and call_name(x) == ".count" and x.a[1][1].op == "const" and x.a[1][1].a[0] == "#" for x in tm.walk(t))
     flat_neg = any((x.op == "bin" and x.a[0] == "*" and any(tm.is_const(z, -1) for z in x.a[1:]) and any(z.op == "call" and call_name(z) == ".count" and z.a[1][1].op == "const" and z.a[1][1].a[0] == "b" for z in x.a[1:])) or (x.op == "un" and x.a[0] == "-" and x.a[1].op == "call" and call_name(x.a[1]) == ".count" and x.a[1].a[1][1].a[0] == "b") for x in tm.walk(t))
     yield ob(R, f, "chord.scale_degree_to_semitone:offset-sign", sharp and flat_neg, "semitone = table value + (#sharps) or - (#flats)")
+    # the result is the absolute distance above the root (degree 9 is 14 semitones): scale_degree_to_bitmap discards what does
+    # not fit the bitmap length by comparing this value with the length, so a value wrapped to one octave is never discarded
+    wrapped = [x for r in rets for x in tm.walk(r.term) if (x.op == "bin" and x.a[0] == "%") or (x.op == "call" and call_name(x) in ("np.mod", "np.remainder", "builtins.divmod", "np.fmod"))]
+    yield ob(R, f, "chord.scale_degree_to_semitone:unwrapped", not wrapped, "the semitone distance is returned unreduced (the caller decides by its size whether the degree fits the bitmap)" if not wrapped else "the returned distance is reduced modulo an octave: degrees beyond the bitmap length (9, 11, 13) are folded into it instead of being discarded", node=rets[-1].node)
 
 
 def rule_strictbass(ctx):
@@ -584,7 +589,12 @@ def rule_strictbass(ctx):
     yield ob(R, f, "chord.encode:strict-tests-returned-bitmap", base is tested, "the tested bitmap is the returned one before the bass bit is set")
 
 
+def rule_formatsafe(ctx):
+    yield from common.rule_formatsafe(ctx, "C10.FORMATSAFE", ("chord.py",))
+
+
 RULES = [
+    ("C10.FORMATSAFE", 3, rule_formatsafe),
     ("C10.GRAMMAR", 3, rule_grammar),
     ("C10.SPLITSAFE", 5, rule_splitsafe),
     ("C10.EXC", 9, rule_exc),
